@@ -117,7 +117,8 @@ Definition txt_invmsg : bytes :=        (* "Invalid FIX Message" *)
   [73;110;118;97;108;105;100;32;70;73;88;32;77;101;115;115;97;103;101].
 Definition colon_sp : bytes := [58;32].
 Definition txt_at : bytes := [32;97;116].           (* " at" *)
-Definition pat_34 : bytes := [51;52;61].            (* "34=" *)
+Definition pat_34 : bytes := [1;51;52;61].          (* SOH "34=": the MsgSeqNum tag itself (since /repo b6a87a4..: F24 repaired) *)
+Definition pat_34_orig : bytes := [51;52;61].       (* "34=" anywhere, also inside another tag or value (F24) *)
 
 (* f8Exception::format(msg, a, msg2, b) = msg ": " a msg2 ": " b *)
 Definition fmt2 (m1 a m2 b : bytes) : bytes := (m1 ++ colon_sp ++ a ++ m2 ++ colon_sp ++ b)%list.
